@@ -49,3 +49,18 @@ def optNat? (s : String) : Option (Option Nat) :=
   if s == "-" then some none else s.toNat?.map some
 
 end OutlineModel.Util
+
+namespace OutlineModel.Util
+
+/-- canonical short form of a byte string for the line protocol: `<len>:<fnv1a-64 hex>` -/
+def digest (bs : List UInt8) : String :=
+  let h : UInt64 := bs.foldl (fun h b => (h ^^^ b.toUInt64) * 1099511628211) 14695981039346656037
+  let hexDigits := (List.range 16).map fun i => hexChar ((h >>> (UInt64.ofNat (60 - 4 * i))).toNat % 16)
+  s!"{bs.length}:{String.ofList hexDigits}"
+
+def strToHex (s : String) : String := toHex s.toUTF8.toList
+
+def hexToStr? (h : String) : Option String :=
+  (parseHex? h).map fun bs => String.ofList (bs.map fun b => Char.ofNat b.toNat)
+
+end OutlineModel.Util
